@@ -887,6 +887,12 @@ func (p *InlineParser) parseEndBracket(state *inlineState, start int) (end int) 
 			End:   label.span.End,
 		}
 		p.finishLink(state, kind, openDelimIndex)
+		// The label may span multiple lines:
+		// advance to the line that holds its closing bracket
+		// so that the rest of the label is not tokenized again.
+		if i := nodeIndexForPosition(state.unparsed[state.unparsedPos:], label.span.End-1); i >= 0 {
+			state.unparsedPos += i
+		}
 		return linkNode.span.End
 	default:
 		// Shortcut reference link.
